@@ -208,6 +208,14 @@ C06_AckRelayerField(k) == (ln(k).ev = "Recv" /\ ln(k).res = "ok") => ln(k).wrote
 C06_RejectNoChange(k) == (ln(k).ev \in {"UpdateClient", "Recv"} /\ ln(k).res # "ok") => Unchanged(k)
 C06_ClientsOnlyByUpdate(k) == \A c \in Chains : clients'[c] # clients[c] => (ln(k).ev \in {"UpdateClient", "Retoggle"} /\ ln(k).res = "ok" /\ ActChain(k) = c)
 
+(* a restart of the chain from its own exported genesis loses and alters nothing: the replay guards (C01), the verified heights *)
+(* proofs are checked against (C02), the stored acknowledgements and commitments (C05), the sequences (C04)                     *)
+Restarted(k) == ln(k).ev = "Regenesis"
+C01_RestartKeepsReceipts(k) == Restarted(k) => (ln(k).res = "ok" /\ receipts' = receipts)
+C02_RestartKeepsClients(k) == Restarted(k) => (clients' = clients /\ rot' = rot)
+C04_RestartKeepsSequences(k) == Restarted(k) => (seq' = seq /\ cseq' = cseq)
+C05_RestartKeepsAcks(k) == Restarted(k) => (acks' = acks /\ commits' = commits)
+
 (* the long-history leg: the operators whose cost does not grow with the square of the history *)
 JudgeLite(k) ==
   /\ Report(k, "C01.MarksExact", MarksExact')
@@ -269,6 +277,10 @@ Judge(k) ==
      /\ Report(k, "C06.AckRelayerField", C06_AckRelayerField(k))
      /\ Report(k, "C06.RejectNoChange", C06_RejectNoChange(k))
      /\ Report(k, "C06.ClientsOnlyByUpdate", C06_ClientsOnlyByUpdate(k))
+     /\ Report(k, "C01.RestartKeepsReceipts", C01_RestartKeepsReceipts(k))
+     /\ Report(k, "C02.RestartKeepsClients", C02_RestartKeepsClients(k))
+     /\ Report(k, "C04.RestartKeepsSequences", C04_RestartKeepsSequences(k))
+     /\ Report(k, "C05.RestartKeepsAcks", C05_RestartKeepsAcks(k))
 
 (* --- Conform ----------------------------------------------------------- *)
 Base(k) == PacketOf(<<ln(k).args.src, ln(k).args.dst, ln(k).args.seq>>, sent)
@@ -286,6 +298,7 @@ C_Step(k) ==
     [] ln(k).ev = "Retoggle" -> RetoggleEff(c, a.counter) /\ ln(k).res = "ok"
     [] ln(k).ev = "NewClient" -> NewClientEff(c, a.counter, a.name)
     [] ln(k).ev = "SendFake" -> UNCHANGED stateVars /\ ln(k).res = "ok"
+    [] ln(k).ev = "Regenesis" -> RegenesisEff(c) /\ ln(k).res = "ok"
     [] ln(k).ev = "Rotate" -> RotateEff(c, a.counter) /\ ln(k).res = "ok"
     [] ln(k).ev = "EnableLimit" -> EnableEff(c, a.token, <<a.cap, a.max, a.min>>) /\ ln(k).res = Res(EnableOK(c, a.token, <<a.cap, a.max, a.min>>))
     [] ln(k).ev = "DisableLimit" -> DisableEff(c, a.token) /\ ln(k).res = Res(DisableOK(c, a.token))
